@@ -18,7 +18,7 @@ string); lists of strings are comma-separated (`~` = empty list).
   h5 <s>                              parse_h5file
   readtxt <s>                         read_iterations on the given file text
   ov <cat>                            collect_overall_iterations
-  lin <x> <a> <b> <n>                 x in np.linspace(a, b, n)
+  rng <x> <a> <b> <n>                 x in range(a, b + 1, n)
 -/
 import AurelVerif.Model.Catalog
 open AurelVerif.Catalog
@@ -127,8 +127,8 @@ def step (st : DState) (line : String) : DState × String :=
     (st, match overall (parseCat c) with
       | .ok o => "ok " ++ ovS o
       | .error e => "err " ++ errS e)
-  | ["lin", x, a, b, n] =>
-    (st, match linMem x.toInt! a.toInt! b.toInt! n.toInt! with
+  | ["rng", x, a, b, n] =>
+    (st, match rangeMem x.toInt! a.toInt! b.toInt! n.toInt! with
       | .ok true => "1" | .ok false => "0" | .error e => "err " ++ errS e)
   | _ => (st, "bad-op")
 
